@@ -8,8 +8,10 @@
 mod engine;
 mod gen;
 mod lacebox;
+mod proggen;
 mod props;
 mod refasm;
+mod refvm;
 
 use std::collections::BTreeSet;
 use std::path::{Path, PathBuf};
@@ -172,6 +174,9 @@ fn bins() -> Vec<Bin> {
 
 fn master(id: &str, tier: Tier) {
     let start = now();
+    // deterministic plain-text output from the `colored` crate in workers and CLI children
+    std::env::remove_var("CLICOLOR_FORCE");
+    std::env::set_var("NO_COLOR", "1");
     let prop = find_prop(id);
     let id = prop.id();
     let seed: u64 = std::env::var("VERIF_SEED").ok().and_then(|s| s.parse().ok()).unwrap_or(0);
